@@ -451,6 +451,7 @@ pub fn bdamage() -> impl Strategy<Value = BDamage> {
         2 => (0usize..6).prop_map(BDamage::StripNewline),
         1 => garbage_line().prop_map(BDamage::AppendRaw),
         2 => any::<u16>().prop_map(|o| BDamage::AppendLineFrom(o as usize)),
+        2 => (0usize..6).prop_map(BDamage::CrBeforeLf),
     ]
 }
 
